@@ -180,7 +180,11 @@ func (node *harness) run(ctx context.Context, sender tracing.ISenderHandle) {
 				node.tracer.Send(ActiveBoundaryTrace{Start: true, Node: node.activity.Element()})
 				in := node.activity.NextAction(ctx, m.flow)
 				out := make(chan IAction, 1)
+				// the relay announces the end of the activation: it is a sender of its own,
+				// registered while this loop still holds its registration
+				relay := node.tracer.RegisterSender()
 				go func(bctx context.Context) {
+					defer relay.Done()
 					select {
 					case rsp := <-in:
 						out <- rsp
